@@ -579,6 +579,7 @@ def do_selftest(a):
                 seed = run_seed(4711, prop, idx)
                 plan = mod.gen(seed, "quick", idx)
                 if plan.get("faults") or plan.get("profile") in ("fixture", "fault"): continue
+                if plan["knobs"].get("tokendir") or plan["knobs"].get("conf", {}).get("objectstore.backend") == "db": continue      # already on a real directory (SQLite stratum)
                 if any(op.get("act") in ("rmtoken", "corrupt", "fsbackup") for t_ in plan["tasks"] for op in t_["ops"]): continue    # harness actions that exist on the simulated disk only
                 plan["knobs"]["final_disk"] = True
                 plan["knobs"]["short_io"] = False
